@@ -50,15 +50,83 @@ def generate(tier, seed):
         if k % 2:
             c['warmup'] = [fitcase.gen_source(rng, len(c['wav']), min_fitted=2 if mode == '2d' else 1) for _ in range(rng.randint(1, 2))]
         cases.append(c)
+    # FitInfo.sort() itself on hand-made results: chi^2 vectors with ties, infinities (models rejected outright) and NaN anywhere in the vector
+    alpha = [0.5, 2.0, 2.0, 7.25, math.inf, math.inf, math.nan]
+    for k in range(100 if tier == 'quick' else 1500):
+        n = rng.randint(1, 9)
+        cases.append(dict(kind='sort', mode='sort', chi=[rng.choice(alpha) if rng.random() < 0.7 else rng.dyadic(0, 50, 8) for _ in range(n)], fluxes=rng.random() < 0.5))
     return cases
 
 
-impl = fitcase.impl_fit
-shrink = fitcase.shrink
+def _impl_sort(case):
+    import numpy as np
+    from sedfitter.fit_info import FitInfo
+    from sedfitter.source import Source
+    n = len(case['chi'])
+    s = Source()
+    s.name = 'src'
+    s.valid, s.flux, s.error = [1, 1], [1.0, 2.0], [0.1, 0.2]
+    info = FitInfo(source=s)
+    info.chi2 = np.array(case['chi'], dtype=float)
+    info.av = np.arange(n) + 0.25
+    info.sc = np.arange(n) + 0.5
+    info.model_name = np.array(['m%03d' % i for i in range(n)], dtype='U30')
+    info.model_fluxes = (np.arange(2 * n, dtype=float).reshape(n, 2) + 0.125) if case['fluxes'] else None
+    info.sort()
+    return dict(model_id=[int(x) for x in info.model_id], av=[float(x) for x in info.av], sc=[float(x) for x in info.sc], chi2=[float(x) for x in info.chi2],
+                model_name=[str(x) for x in info.model_name], model_fluxes=None if info.model_fluxes is None else [[float(v) for v in row] for row in info.model_fluxes])
+
+
+def impl(case):
+    return _impl_sort(case) if case.get('kind') == 'sort' else fitcase.impl_fit(case)
+
+
+def _judge_sort(case, im, mo):
+    chi, n = case['chi'], len(case['chi'])
+    tags = ['mode=sort', 'n=%d' % n, 'inf=%s' % any(math.isinf(x) for x in chi), 'nan=%s' % any(math.isnan(x) for x in chi)]
+    if 'exc' in im:
+        return dict(disagree=['implementation raised ' + im['msg']], fail=['raised: FitInfo.sort raised %s' % im['msg']], nontrivial=False, tags=tags)
+    fail, disagree = [], []
+    ids = im['model_id']
+    if sorted(ids) != list(range(n)):
+        fail.append('once: after sort() model_id %r is not a permutation of 0..%d (chi2 %r)' % (ids, n - 1, chi))
+        return dict(disagree=[], fail=fail, nontrivial=True, tags=tags)
+    for i, mid in enumerate(ids):
+        same = (im['chi2'][i] == chi[mid]) or (math.isnan(im['chi2'][i]) and math.isnan(chi[mid]))
+        if not (same and im['av'][i] == mid + 0.25 and im['sc'][i] == mid + 0.5 and im['model_name'][i] == 'm%03d' % mid
+                and (im['model_fluxes'] is None or im['model_fluxes'][i] == [2 * mid + 0.125, 2 * mid + 1.125])):
+            fail.append('row: after sort() row %d carries index %d but not all of that model\'s values (chi2 %r)' % (i, mid, chi))
+            break
+    for i in range(n - 1):
+        a, b = im['chi2'][i], im['chi2'][i + 1]
+        if (math.isnan(a) and not math.isnan(b)) or (not math.isnan(a) and not math.isnan(b) and a > b):
+            fail.append('ranking: after sort() chi2 %r is not in non-decreasing order (NaN last)' % (im['chi2'],))
+            break
+    if mo and not isinstance(mo[0], tuple):
+        order = mo[0]
+        key = lambda v: ('nan',) if math.isnan(v) else (v,)
+        pos = 0
+        while pos < n:
+            end = pos
+            while end + 1 < n and key(chi[order[end + 1]]) == key(chi[order[pos]]):
+                end += 1
+            if sorted(order[pos:end + 1]) != sorted(ids[pos:end + 1]):
+                disagree.append('order: rows %d..%d hold models %r, rank_m puts %r there' % (pos, end, ids[pos:end + 1], order[pos:end + 1]))
+                break
+            pos = end + 1
+    return dict(disagree=disagree, fail=fail[:3], nontrivial=n > 1, tags=tags)
+
+
+def shrink(case):
+    return fitcase.shrink(case) if case.get('kind') != 'sort' else iter(())
+
+
 MODEL_NEEDS_IMPL = True
 
 
 def model_requests(case, im):
+    if case.get('kind') == 'sort':
+        return [('rank', [[x if not math.isfinite(x) else F(x) for x in case['chi']]])]
     extra = []
     if case['mode'] == '2d':
         reqs = c01.model_requests(case)
@@ -79,6 +147,8 @@ def model_requests(case, im):
 
 
 def judge(case, im, mo):
+    if case.get('kind') == 'sort':
+        return _judge_sort(case, im, mo)
     nreq = 1 if case['mode'] == '2d' else 3
     base = (c01.judge if case['mode'] == '2d' else c02.judge)(case, im, mo[:nreq] + (mo[nreq + 1:] if case['mode'] == '3d' else []))
     tags = ['mode=' + case['mode']] + [t for t in base.get('tags', []) if t.startswith('nm=') or 'skipped' in t or t == 'refused']
